@@ -125,8 +125,11 @@ def shipped_recipes():
 
 
 def op_regex(built, meta):
-  """Unanchored escaped full output-tensor name of the operator."""
-  return re.escape(meta.scope_name(built))
+  """Unanchored escaped output-tensor name of the operator; for operators at
+  an odd position the name without its first character, i.e. a regex that is
+  found in the scope but not at its start (rules apply on re.search)."""
+  n = meta.scope_name(built)
+  return re.escape(n[1:] if meta.index % 2 else n)
 
 
 def per_op_recipe(built, modes, si=0):
